@@ -184,3 +184,18 @@ claim(
     '',
     'decision-table extraction by finite-domain evaluation of the AST + reachability on the path walker',
 )
+
+claim(
+    'C13',
+    'Decided (necessary conditions on the language determination): the variable the ancestor walk fills from lang '
+    'attributes has a None sentinel and is never tested by truthiness (so lang="" ends the walk); the <meta> memo '
+    'stores a miss as a miss and a hit as the value the path uses, under the same key variable it looks up with, and '
+    'that key is the top of the walk on every path that ends the walk without a language (so an iframe document never '
+    "reads the outer document's entry); every tree accessor in match_lang passes no_iframe=self.is_html; the lang / "
+    'xml:lang choice tests the namespace of the very node whose attributes are inspected; the :lang() value list is '
+    'tiled by RE_VALUES and each range is decoded exactly once. Not decided: RFC 4647 extended filtering itself '
+    '(extended_language_filter), including the known trailing "-*" defect.',
+    'extended_language_filter is an algorithm over subtag sequences of unbounded length; no sound static argument '
+    'short of a loop-invariant proof decides it.',
+    'sentinel-consistency rule over mypy types + memo-transparency rules on the path walker + string provenance',
+)
